@@ -171,6 +171,22 @@ theorem names_unique (ops : List Naming.TraceOp) (sc : Scope) (h : Naming.replay
     subst hab
     exact hi.2.disj a ha hb
 
+/-- **Naming of a build, on the compilation itself.** Whenever the naming model of
+    `Builder.compile_graph` succeeds on an emission tree — any nesting of bodies, any inlined models,
+    any preset user names — the final scope has pairwise distinct value names (Vars ∪ reserved
+    internals) and pairwise distinct node names (Nodes ∪ reserved inlined node names). The state of
+    `compileGraph` carries the invariant; only the three scope-changing primitives construct it. -/
+theorem compile_names_unique (g : Naming.EGraph) (ng : Named.NGraph) (st : Naming.St)
+    (_h : Naming.compile g = .ok (ng, st)) :
+    ((allPairs st.sc.var.frames).map (·.2) ++ allReserved st.sc.var.frames).Nodup ∧
+    ((allPairs st.sc.node.frames).map (·.2) ++ allReserved st.sc.node.frames).Nodup := by
+  have hi : SInv st.sc := st.inv
+  constructor
+  · rw [List.nodup_append]
+    exact ⟨hi.1.names, hi.1.res, fun a ha b hb hab => by subst hab; exact hi.1.disj a ha hb⟩
+  · rw [List.nodup_append]
+    exact ⟨hi.2.names, hi.2.res, fun a ha b hb hab => by subst hab; exact hi.2.disj a ha hb⟩
+
 /-- …and a user-chosen (preset) name equal to a name some other Var already has makes the naming
     step fail — the build raises instead of emitting a duplicate. -/
 theorem clash_raises (var : Space) (h : Inv var) (nodeName : String) (ov : OutVar) (rest : List OutVar)
